@@ -59,6 +59,25 @@ def extract(name, text, log):
     return text
 
 
+_CTRL = ('if', 'else', 'match', 'for', 'while', 'loop', 'return', 'break', 'continue', '?', '=>')
+def structural_change(ptoks, ctoks):
+    """True if an edit changes the control structure of an item or the functions it calls (not just operators, constants, indices, conditions):
+    the overlay's body proof is written for one control structure; after such an edit a failed obligation inside the item may be the proof
+    no longer fitting rather than the property being violated, so it is reported only together with a concrete failing input (DESIGN 0.4)."""
+    def prof(toks):
+        # the sequence of control keywords and calls, each with its brace depth: moving a statement into or out of a branch / loop is structural too
+        seq = []; depth = 0
+        ts = [t.t for t in toks]
+        for i, t in enumerate(ts):
+            if t == '{': depth += 1
+            elif t == '}': depth -= 1
+            elif t in _CTRL: seq.append((t, depth))
+            elif i + 1 < len(ts) and ts[i + 1] == '(' and re.match(r'[A-Za-z_]\w*$', t) and t not in ('Some', 'Ok', 'Err', 'None'):
+                seq.append((t + '()', depth))
+        return seq
+    return prof(ptoks) != prof(ctoks)
+
+
 def uniq_keys(items):
     seen = {}
     for it in items:
@@ -147,6 +166,7 @@ def assemble_module(asm, name, with_contracts=True):
             except WeaveError as e:
                 asm.problems.append('overlay-mismatch %s::%s: %s' % (name, k, e)); continue
             out, changed = weave(atoks, ptoks, ctoks)
+            if changed and structural_change(ptoks, ctoks): changed = -abs(changed)   # negative: the control structure / the set of calls changed
             if (name, k) in asm.degrade:
                 out = degrade(out, 'fn' if k.startswith('fn ') else 'impl')
                 asm.log.append('%s: DEGRADED %s: the code of this item was restructured so that the proof overlay of its body no longer applies; its contract is ASSUMED (external_body) on this run' % (name, k))
